@@ -38,9 +38,14 @@ pub struct WorldSpec {
     pub rewards: Vec<RewardSpec>,
     /// poke p1 for rewards: initial growth_global of each reward
     pub reward_growth0_hi: u8,
-    /// 0 = both mints SPL Token; 1 = both Token-2022 (no extensions); 2 = one of each
+    /// 0 = both mints SPL Token; 1 = both Token-2022 (no extensions); 2 = one of each; 3 = Token-2022 with transfer fees (tf1 / tf2)
     #[serde(default)]
     pub mint_kind: u8,
+    /// transfer fee (basis points, maximum) of the first / second created mint when mint_kind == 3
+    #[serde(default)]
+    pub tf1: Option<(u16, u64)>,
+    #[serde(default)]
+    pub tf2: Option<(u16, u64)>,
 }
 
 #[derive(Clone, Debug, Serialize, Deserialize, Hash, PartialEq, Eq)]
@@ -118,6 +123,8 @@ pub struct Snap {
     pub pool: WhirlpoolD,
     pub positions: Vec<Option<PositionD>>,
     pub balances: BTreeMap<Pubkey, u64>,
+    /// Token-2022 withheld transfer fees per token account (accounts without the extension: absent)
+    pub withheld: BTreeMap<Pubkey, u64>,
     pub clock: i64,
 }
 
@@ -182,8 +189,11 @@ impl Hist {
         let cfg = w.init_config(spec.protocol_fee_rate.min(2500));
         let ix = w.ix_init_fee_tier(cfg, spec.tick_spacing, spec.fee_rate.min(60000));
         w.must("initialize_fee_tier", &ix);
-        let m1 = if spec.mint_kind == 1 { w.create_t22_mint(None) } else { w.create_spl_mint() };
-        let m2 = if spec.mint_kind >= 1 { w.create_t22_mint(None) } else { w.create_spl_mint() };
+        let (m1, m2) = if spec.mint_kind == 3 {
+            (w.create_t22_mint(spec.tf1), w.create_t22_mint(spec.tf2))
+        } else {
+            (if spec.mint_kind == 1 { w.create_t22_mint(None) } else { w.create_spl_mint() }, if spec.mint_kind >= 1 { w.create_t22_mint(None) } else { w.create_spl_mint() })
+        };
         let pool = w.init_pool(cfg, &m1, &m2, spec.tick_spacing, start_sqrt_price(spec)).ok()?;
         // poke p1: accumulators of a pool without positions may start anywhere
         {
@@ -297,7 +307,14 @@ impl Hist {
         for r in &p.rewards {
             balances.insert(r.vault, self.w.balance(&r.vault));
         }
+        let mut withheld = BTreeMap::new();
+        for k in balances.keys() {
+            if let Some(x) = decode::withheld_amount(&self.w.bank.get(k).data) {
+                withheld.insert(*k, x);
+            }
+        }
         Snap {
+            withheld,
             pool: self.w.pool_state(self.pool),
             positions: (0..self.w.positions.len()).map(|i| if self.w.positions[i].open { self.w.position_state(i) } else { None }).collect(),
             balances,
@@ -693,6 +710,8 @@ pub fn spec_strategy(with_rewards: bool, wrap_bias: bool) -> BoxedStrategy<World
             rewards,
             reward_growth0_hi: rg,
             mint_kind: 0,
+            tf1: None,
+            tf2: None,
         })
         .boxed()
 }
